@@ -391,6 +391,14 @@ def build():
         stored = z3.Select(c.new.val(fwd(c.old, m)), one)
         return z3.Implies(empty, z3.Or(z3.Not(z3.Select(c.new.dom(fwd(c.old, m)), one)), z3.And(is_list(stored), z3.Length(c.new.list(stored)) == 0)))
 
+    def om_no_stale(c):
+        m, one, many = c.p.self, c.p.one, c.p.many
+        is_set = z3.And(S.is_ref(many), S.tyof(S.addr(many)) == S.type_id('set'))
+        in_many = lambda x: z3.If(is_set, z3.Select(c.old.dom(many), x), S.member(c.old.list(many), x))
+        nonempty = z3.If(is_set, z3.Exists([xq], z3.Select(c.old.dom(many), xq)), z3.Length(c.old.list(many)) > 0)
+        B1 = bwd(c.old, m)
+        return z3.Implies(nonempty, S.forall([xq], z3.Implies(z3.And(z3.Select(c.new.dom(B1), xq), z3.Select(c.new.val(B1), xq) == one), in_many(xq))))
+
     reg.add(Contract(LD, 'OneToManyMapLoader.save', dict(self=OM, one=Any, many=Any), returns=NoneT,
                      requires=[('many-is-a-list-or-a-set', lambda c: z3.Or(S.has_type(c.p.many, List(Any), c.old.next), S.has_type(c.p.many, Set(Any), c.old.next))),
                                ('maps-are-two-dicts-distinct-from-the-argument', lambda c: z3.And(fwd(c.old, c.p.self) != bwd(c.old, c.p.self)))],
@@ -401,7 +409,8 @@ def build():
                              patterns=[z3.Select(c.cur.val(bwd(c.pre, c.p.self)), xq)]))],
                          modifies=lambda c: {'dom': [bwd(c.pre, c.p.self)], 'val': [bwd(c.pre, c.p.self)]})},
                      ensures=[('a-read-returns-the-non-empty-content-just-saved', om_nonempty),
-                              ('a-read-returns-the-empty-content-just-saved', om_empty)],
+                              ('a-read-returns-the-empty-content-just-saved', om_empty),
+                              ('no-stale-owner:-after-a-non-empty-save-every-member-that-maps-back-to-`one`-is-in-the-collection-just-saved', om_no_stale)],
                      modifies=lambda c: {'dom': [fwd(c.old, c.p.self), bwd(c.old, c.p.self)], 'val': [fwd(c.old, c.p.self), bwd(c.old, c.p.self)]},
                      fresh_fields=['list']))
     reg.add(Contract(LD, 'OneToManyMapLoader.convert_one_to_many', dict(self=OM, one=Any), returns=Any,
